@@ -89,6 +89,7 @@ pub fn gen_mpc_opts(rng: &mut Rng, min_ops: u64, max_ops: u64, allow_truncate: b
     b.callees = callees.clone();
     b.iter_callees = iter_callees.clone();
     b.allow_truncate = allow_truncate;
+    b.allow_heavy = true;
     let n_in = b.rng.range(1, 4);
     let base_st = *b.rng.pick(&ALL_ST);
     let mut input_types = vec![];
